@@ -137,6 +137,27 @@ def r1_r2_selection(ctx: Ctx, d) -> None:
         conds_ = _c02.candidate_conds(d, s, base.args[0]) if base.args else None
         if conds_ is None:
             continue
+        # each field is resolved on its own: which rules compete for one field never depends on the winner of another
+        if base.args and isinstance(base.args[0], ast.Name):
+            seen_, work_ = set(), [base.args[0].id]
+            dep = None
+            while work_:
+                nm_ = work_.pop()
+                for dn in d.cfg.defs_reaching(s, nm_):
+                    if dn == 'param' or (dn, nm_) in seen_:
+                        continue
+                    seen_.add((dn, nm_))
+                    dv = getattr(d.cfg.stmt[dn], 'value', None)
+                    if isinstance(dv, (ast.ListComp, ast.GeneratorExp)):
+                        if any(isinstance(n_, ast.Name) and n_.id == 'result' for g_ in dv.generators for c_ in g_.ifs for n_ in ast.walk(c_)):
+                            dep = d.cfg.stmt[dn]
+                        work_ += [g_.iter.id for g_ in dv.generators if isinstance(g_.iter, ast.Name)]
+                    elif isinstance(dv, ast.Name):
+                        work_.append(dv.id)
+            for fld_ in sorted(fed_):
+                ctx.check(dep is None, 'C09.R1', d.fi, f'field-independent:{fld_}', f'the candidates for {fld_} do not depend on another field\'s winner',
+                          f'the candidates for {fld_} are narrowed by what was already chosen for another field ({src(dep)[:70] if dep is not None else ""!r}): a lower-ranked rule can supply '
+                          f'the {fld_} over the most specific rule that sets one', dep if dep is not None else s)
         for fld_ in sorted(fed_ & {'merchant', 'subcategory'}):
             ok_ = any(f'has_{fld_}' in c_ or _c02._reads_attr(c_, fld_) for c_ in conds_)
             ctx.check(ok_, 'C09.R1', d.fi, f'field-candidates:{fld_}', f'the {fld_} winner is chosen among rules that set a {fld_}',
